@@ -8,6 +8,7 @@ import (
 	"sort"
 	"strings"
 	"sync"
+	"sync/atomic"
 	"testing"
 	"time"
 
@@ -25,6 +26,27 @@ type nopRW struct{}
 
 func (nopRW) Read([]byte) (int, error)    { return 0, io.EOF }
 func (nopRW) Write(p []byte) (int, error) { return len(p), nil }
+
+// rvRW is a transport double with a connection-id hook. CreateConnection asks it for a custom id in
+// the middle of the admission path (after any early limit check, before the stream is created and the
+// connection is registered); the hook lets the racers of a round meet there (bounded wait) and then
+// answers "no custom id".
+type rvRW struct {
+	nopRW
+	want    int32
+	arrived *atomic.Int32
+}
+
+func (r rvRW) GetConnectionID() string {
+	r.arrived.Add(1)
+	deadline := time.Now().Add(300 * time.Microsecond)
+	for spins := 0; r.arrived.Load() < r.want; spins++ {
+		if spins%256 == 255 && time.Now().After(deadline) {
+			break
+		}
+	}
+	return ""
+}
 
 func newSM(maxConn, maxControl int) (*session.SessionManager, func()) {
 	ctx, cancel := context.WithCancel(context.Background())
@@ -51,11 +73,15 @@ func roundServerCap(t vkit.TB, c Case) {
 	defer closeSM()
 	const pfx = "C17/max-connections/CreateConnection/"
 	g := &gauge{}
+	var idMu sync.Mutex
+	admittedIDs := map[string]bool{} // every connection the server ever admitted in this round
 	for i := 0; i < c.Occ; i++ {
-		if _, err := sm.CreateConnection(nopRW{}, nopRW{}); err != nil {
+		conn, err := sm.CreateConnection(nopRW{}, nopRW{})
+		if err != nil {
 			vkit.Violation(t, pfx+"refused-below-limit", fmt.Sprintf("limit %d, %d connections: %v", c.Limit, i, err), c)
 			return
 		}
+		admittedIDs[conn.ID] = true
 		g.Inc()
 	}
 	class := fmt.Sprintf("server-cap/limit=%d/%s", c.Limit, c.Mode)
@@ -82,6 +108,7 @@ func roundServerCap(t vkit.TB, c Case) {
 	}
 	obs := observe(func() int { return sm.GetConnectionStats().TotalConnections })
 	var refused, admitted atomic32
+	var arrived atomic.Int32
 	inflight := contend(c.Racers, func(i int) {
 		have := ""
 		for k := 0; k < c.Ops[i]; k++ {
@@ -90,11 +117,18 @@ func roundServerCap(t vkit.TB, c Case) {
 				sm.CloseConnection(have)
 				have = ""
 			}
-			conn, err := sm.CreateConnection(nopRW{}, nopRW{})
+			var rd io.Reader = nopRW{}
+			if c.Amp && k == 0 {
+				rd = rvRW{want: int32(c.Racers), arrived: &arrived}
+			}
+			conn, err := sm.CreateConnection(rd, nopRW{})
 			if err == nil && conn != nil {
 				g.Inc()
 				admitted.Add(1)
 				have = conn.ID
+				idMu.Lock()
+				admittedIDs[conn.ID] = true
+				idMu.Unlock()
 			} else {
 				refused.Add(1)
 			}
@@ -118,7 +152,35 @@ func roundServerCap(t vkit.TB, c Case) {
 		vkit.Violation(t, pfx+"count-differs-from-admissions", detail, c)
 		return
 	}
-	vkit.Case(class, nt, fmt.Sprintf("%s|%d|%d|%v", c.Kind, c.Limit, c.Racers, c.Ops))
+	// a refused request changes no state: everything the admission path touches must belong to an admitted
+	// connection. (CloseConnection leaves the stream of a closed connection registered, so the registered
+	// streams are compared with the connections ever admitted, not with the open ones.)
+	streamMgr := sm.GetStreamManager()
+	var foreign []string
+	for _, id := range streamMgr.ListStreams() {
+		if !admittedIDs[id] {
+			foreign = append(foreign, id)
+		}
+	}
+	if len(foreign) > 0 || streamMgr.GetStreamCount() > len(admittedIDs) {
+		vkit.Violation(t, pfx+"refusal-changed-state/stream-left-registered", fmt.Sprintf("%d stream(s) registered in the StreamManager belong to no admitted connection (%d registered, %d connections ever admitted, %d requests refused): %v; %s",
+			len(foreign), streamMgr.GetStreamCount(), len(admittedIDs), refused.Load(), foreign, detail), c)
+		return
+	}
+	for _, cn := range sm.ListConnections() {
+		if _, ok := streamMgr.GetStream(cn.ID); !ok || !admittedIDs[cn.ID] {
+			vkit.Violation(t, pfx+"admitted-connection-inconsistent", fmt.Sprintf("connection %s: stream registered=%v, admitted to a caller=%v; %s", cn.ID, ok, admittedIDs[cn.ID], detail), c)
+			return
+		}
+	}
+	if st := sm.GetConnectionStats(); st.ControlConnections != 0 || st.TunnelConnections != 0 {
+		vkit.Violation(t, pfx+"refusal-changed-state/registries", fmt.Sprintf("%+v; %s", st, detail), c)
+		return
+	}
+	if c.Amp {
+		class += "/racers-meet-inside-admission"
+	}
+	vkit.Case(class, nt, fmt.Sprintf("%s|%d|%d|%v|%v", c.Kind, c.Limit, c.Racers, c.Ops, c.Amp))
 }
 
 type atomic32 struct {
@@ -150,6 +212,7 @@ func TestServerCap(t *testing.T) {
 		}
 		c.Racers = rapid.SampledFrom(racerCounts()).Draw(t, "racers")
 		c.Ops = rapid.SliceOfN(rapid.IntRange(1, 3), c.Racers, c.Racers).Draw(t, "ops")
+		c.Amp = rapid.SampledFrom([]bool{false, false, true}).Draw(t, "racersMeetInsideAdmission")
 		roundServerCap(t, c)
 	})
 }
